@@ -178,11 +178,27 @@ func main() {
 	case "gen":
 		fs := flag.NewFlagSet("gen", flag.ExitOnError)
 		repo := fs.String("repo", "/repo", "repository root")
-		out := fs.String("out", "", "output file")
+		out := fs.String("out", "", "output file (configuration facts: Generated.v)")
+		outCtl := fs.String("out-ctl", "", "output file (decision core: GeneratedCtl.v)")
 		fs.Parse(os.Args[2:])
-		if err := generate(*repo, *out); err != nil {
-			fmt.Fprintln(os.Stderr, "gen error:", err)
-			os.Exit(3)
+		// the two files are independent; exit 3: Generated.v incomplete or failed, 4: only GeneratedCtl.v incomplete or failed
+		code := 0
+		if *out != "" {
+			if err := generate(*repo, *out); err != nil {
+				fmt.Fprintln(os.Stderr, "gen error:", err)
+				code = 3
+			}
+		}
+		if *outCtl != "" {
+			if err := generateCtl(*repo, *outCtl); err != nil {
+				fmt.Fprintln(os.Stderr, "gen-ctl error:", err)
+				if code == 0 {
+					code = 4
+				}
+			}
+		}
+		if code != 0 {
+			os.Exit(code)
 		}
 	default:
 		fmt.Fprintln(os.Stderr, "unknown command")
